@@ -46,6 +46,10 @@ pub struct Plan {
     /// what it is given, so only the crash / stall clauses are judged
     #[serde(default)]
     pub fresh_victim: bool,
+    /// the node's log statements are evaluated up to debug level (into a sink), as on a node started with debug
+    /// logging: whatever a log statement computes from peer-controlled state runs too
+    #[serde(default)]
+    pub debug_logging: bool,
 }
 
 pub const HOSTILE: &[&str] = &[
@@ -89,7 +93,7 @@ fn gen(seed: u64, tier: Tier) -> Plan {
             Move { k, a: rng.below(16) }
         })
         .collect();
-    Plan { seed, attacker_authenticated: rng.chance(2, 3), depth: rng.range(2, 6) as usize, moves, final_restart: rng.chance(1, 3), fresh_victim: rng.chance(1, 8) }
+    Plan { seed, attacker_authenticated: rng.chance(2, 3), depth: rng.range(2, 6) as usize, moves, final_restart: rng.chance(1, 3), fresh_victim: rng.chance(1, 8), debug_logging: rng.chance(1, 8) }
 }
 
 fn state_digest(sim: &Sim, n: usize, honest_idx: u64, honest_key: &[u8; 33]) -> (u64, String) {
@@ -130,7 +134,7 @@ impl Scenario for C11 {
     fn meta(&self) -> Meta {
         Meta {
             level: "exploration",
-            rule: "run = node under test preloaded with 2-6 blocks (one run in eight: with an empty chain, as a node that was just set up - it takes whatever block reaches it first, so only the crash and stall clauses are judged there), producing blocks by timer, one honest scripted peer (authenticated, announces and serves the honest continuation, sends valid transactions) and an attacker connection (authenticated in 2/3 of the runs) plus a second unauthenticated one; 3..25/80 moves, 2/3 hostile from a 22-entry catalogue (Block-tagged message, ghost-chain request / unsolicited ghost chain, 150 key-list updates, second handshake with another key, unsolicited response, challenge, blockchain request, services, api messages, announcements answered with garbage, announced blocks that are well-formed but hostile: in-block double spend, id 0, timestamp far in the future, golden-ticket transaction with malformed payload, no transactions; issuance-typed transaction without inputs, transaction without outputs, golden-ticket transaction with malformed payload, connect/disconnect storm, ping, header-hash storm) and 1/3 benign (honest block, honest transaction, timer round, clock jump forward/back). After each move the whole system runs to quiescence (cap 20000 steps). In a third of the runs the node is finally stopped and started again from its own simulated disk, which by then also holds the well-formed hostile blocks it stored as side blocks: start-up must not panic and must come back to the same tip and spendable set. Oracle: no handler panics; quiescence is reached; after a hostile move the digest of {tip, stored blocks, spendable set, pool, the honest peer's entry, its key mapping} is unchanged. distinct_nontrivial = distinct attacker sequences that delivered >= 3 hostile items to a node with >= 1 honest peer.",
+            rule: "run = node under test preloaded with 2-6 blocks (one run in eight: with an empty chain, as a node that was just set up - it takes whatever block reaches it first, so only the crash and stall clauses are judged there), producing blocks by timer, one honest scripted peer (authenticated, announces and serves the honest continuation, sends valid transactions) and an attacker connection (authenticated in 2/3 of the runs) plus a second unauthenticated one; 3..25/80 moves, 2/3 hostile from a 22-entry catalogue (Block-tagged message, ghost-chain request / unsolicited ghost chain, 150 key-list updates, second handshake with another key, unsolicited response, challenge, blockchain request, services, api messages, announcements answered with garbage, announced blocks that are well-formed but hostile: in-block double spend, id 0, timestamp far in the future, golden-ticket transaction with malformed payload, no transactions; issuance-typed transaction without inputs, transaction without outputs, golden-ticket transaction with malformed payload, connect/disconnect storm, ping, header-hash storm) and 1/3 benign (honest block, honest transaction, timer round, clock jump forward/back). After each move the whole system runs to quiescence (cap 20000 steps). One run in eight evaluates the node's log statements up to debug level into a sink (a node started with debug logging runs whatever its log statements compute from peer-controlled state). In a third of the runs the node is finally stopped and started again from its own simulated disk, which by then also holds the well-formed hostile blocks it stored as side blocks: start-up must not panic and must come back to the same tip and spendable set. Oracle: no handler panics; quiescence is reached; after a hostile move the digest of {tip, stored blocks, spendable set, pool, the honest peer's entry, its key mapping} is unchanged. distinct_nontrivial = distinct attacker sequences that delivered >= 3 hostile items to a node with >= 1 honest peer.",
             real: &["RoutingThread", "VerificationThread", "ConsensusThread (timer-driven bundling)", "MiningThread", "Network/Peer/PeerCollection", "Blockchain/Mempool", "rate limiters"],
             stubs: &["SimNet scripted honest peer and attacker", "fetch bodies chosen by the scenario", "SimClock with jumps"],
             assumptions: &["orphan deliveries are not generated here (known finding of C03/C05)", "event-granularity scheduling"],
@@ -148,6 +152,17 @@ impl Scenario for C11 {
     fn execute(&self, plan: &Value) -> RunResult {
         let plan: Plan = serde_json::from_value(plan.clone()).expect("plan");
         let mut r = RunResult::default();
+        struct LogGuard;
+        impl Drop for LogGuard {
+            fn drop(&mut self) {
+                crate::util::sink_logging(false);
+            }
+        }
+        let _log_guard = LogGuard;
+        if plan.debug_logging {
+            crate::util::sink_logging(true);
+            r.fault("debug_logging_evaluated", 1);
+        }
         let mut w = World::new(plan.seed, Params::default());
         let mut rng = Rng::new(mix(plan.seed, 11));
         let built = crate::util::guarded(|| -> Result<Vec<usize>, String> {
